@@ -159,6 +159,16 @@ type Evaluator struct {
 	MaxSteps    int
 	gotoLabel   string   // target of a pending goto (ctlGoto)
 	Panic       *GoPanic // set by Protect when the evaluated code called panic
+	frames      []*callFrame
+	deferring   *callFrame // the frame whose deferred calls are running (what recover() looks at)
+}
+
+// callFrame is the activation record of an evaluated function: its deferred
+// calls and, while they run after a panic, the value recover() would return.
+type callFrame struct {
+	defers    []func()
+	panicking *GoPanic
+	recovered bool
 }
 
 // GoPanic is raised (as a Go panic) when the evaluated code calls panic(v).
@@ -291,6 +301,14 @@ func (ev *Evaluator) unify(x, y Int, what string) (Int, Int, Kind) {
 }
 
 func (ev *Evaluator) binary(op token.Token, xv, yv Val, what string) Val {
+	if op == token.EQL || op == token.NEQ {
+		// comparison of an interface value (e.g. what recover() returned) with nil
+		_, xnil := xv.(Nil)
+		_, ynil := yv.(Nil)
+		if xnil || ynil {
+			return Bool{(xnil && ynil) == (op == token.EQL)}
+		}
+	}
 	if xb, ok := xv.(Bool); ok {
 		yb := yv.(Bool)
 		switch op {
@@ -934,6 +952,15 @@ func (ev *Evaluator) call(env *Env, e *ast.CallExpr) Val {
 				ev.fail("unsupported string conversion")
 			case "panic":
 				panic(GoPanic{ev.Eval(env, e.Args[0])})
+			case "recover":
+				if fr := ev.deferring; fr != nil && fr.panicking != nil {
+					v := fr.panicking.V
+					fr.panicking, fr.recovered = nil, true
+					return v
+				}
+				return Nil{}
+			case "new":
+				return Ptr{&Var{V: ev.zeroOf(e.Args[0])}}
 			case "len":
 				switch x := ev.Eval(env, e.Args[0]).(type) {
 				case Bytes:
@@ -1098,7 +1125,82 @@ func (ev *Evaluator) CallFunc(f *Func, args []Val) []Val {
 	if i != len(args) {
 		ev.fail("compile error: too many arguments in call")
 	}
-	ctl, res := ev.execBlock(fenv, f.Lit.Body)
+	// named results are variables of the function
+	var named []*Var
+	if f.Lit.Type.Results != nil {
+		for _, r := range f.Lit.Type.Results.List {
+			for _, n := range r.Names {
+				if n.Name == "_" {
+					named = append(named, &Var{V: ev.zeroOf(r.Type)})
+				} else {
+					named = append(named, fenv.Define(n.Name, ev.zeroOf(r.Type)))
+				}
+			}
+		}
+	}
+	fr := &callFrame{}
+	ev.frames = append(ev.frames, fr)
+	var ctl ctl
+	var res []Val
+	func() {
+		defer func() {
+			if r := recover(); r != nil {
+				gp, isPanic := r.(GoPanic)
+				if !isPanic {
+					ev.frames = ev.frames[:len(ev.frames)-1]
+					panic(r)
+				}
+				fr.panicking = &gp
+			}
+		}()
+		ctl, res = ev.execBlock(fenv, f.Lit.Body)
+	}()
+	if fr.panicking == nil && ctl == ctlReturn && len(named) > 0 && len(res) == len(named) {
+		// return x, y assigns the named results before the deferred calls run
+		for i := range named {
+			named[i].V = res[i]
+		}
+	}
+	// deferred calls, last in first out; a panic raised by one replaces the current one
+	saved := ev.deferring
+	for i := len(fr.defers) - 1; i >= 0; i-- {
+		d := fr.defers[i]
+		ev.deferring = fr
+		func() {
+			defer func() {
+				if r := recover(); r != nil {
+					gp, isPanic := r.(GoPanic)
+					if !isPanic {
+						ev.deferring = saved
+						ev.frames = ev.frames[:len(ev.frames)-1]
+						panic(r)
+					}
+					fr.panicking, fr.recovered = &gp, false
+				}
+			}()
+			d()
+		}()
+	}
+	ev.deferring = saved
+	ev.frames = ev.frames[:len(ev.frames)-1]
+	if fr.panicking != nil {
+		panic(*fr.panicking)
+	}
+	if fr.recovered {
+		// a recovered function returns whatever its result variables hold
+		ctl, res = ctlReturn, nil
+		if len(named) == 0 && f.Lit.Type.Results != nil {
+			for _, r := range f.Lit.Type.Results.List {
+				res = append(res, ev.zeroOf(r.Type))
+			}
+		}
+	}
+	if len(named) > 0 && (ctl == ctlReturn || fr.recovered) && (len(res) == 0 || len(fr.defers) > 0 || fr.recovered) {
+		res = make([]Val, len(named))
+		for i := range named {
+			res[i] = named[i].V
+		}
+	}
 	if ctl != ctlReturn {
 		if f.Lit.Type.Results != nil && len(f.Lit.Type.Results.List) > 0 {
 			ev.fail("compile error: missing return")
@@ -1108,10 +1210,16 @@ func (ev *Evaluator) CallFunc(f *Func, args []Val) []Val {
 	if f.Lit.Type.Results != nil {
 		j := 0
 		for _, r := range f.Lit.Type.Results.List {
-			if j < len(res) {
-				res[j] = ev.assignable(res[j], r.Type, "result")
+			cnt := len(r.Names)
+			if cnt == 0 {
+				cnt = 1
 			}
-			j++
+			for k := 0; k < cnt; k++ {
+				if j < len(res) {
+					res[j] = ev.assignable(res[j], r.Type, "result")
+				}
+				j++
+			}
 		}
 		if j != len(res) {
 			ev.fail("compile error: wrong number of results")
@@ -1326,6 +1434,21 @@ func (ev *Evaluator) Exec(env *Env, s ast.Stmt) (ctl, []Val) {
 		return ctlReturn, res
 	case *ast.LabeledStmt:
 		return ev.Exec(env, s.Stmt)
+	case *ast.DeferStmt:
+		// function value and arguments are evaluated now, the call happens at function exit
+		fv, ok := ev.Eval(env, s.Call.Fun).(*Func)
+		if !ok || fv == nil {
+			ev.fail("unsupported deferred call of a non-function")
+		}
+		args := make([]Val, len(s.Call.Args))
+		for i, a := range s.Call.Args {
+			args[i] = ev.Eval(env, a)
+		}
+		if len(ev.frames) == 0 {
+			ev.fail("unsupported defer outside a function")
+		}
+		fr := ev.frames[len(ev.frames)-1]
+		fr.defers = append(fr.defers, func() { ev.CallFunc(fv, args) })
 	case *ast.BranchStmt:
 		if s.Tok == token.GOTO && s.Label != nil {
 			ev.gotoLabel = s.Label.Name
@@ -1402,7 +1525,33 @@ func (ev *Evaluator) Exec(env *Env, s ast.Stmt) (ctl, []Val) {
 			n = len(e)
 			elem = func(i int) Val { return e[i] }
 		case Str:
-			ev.fail("range over string unsupported")
+			// Go's own range over the string decodes it (the engine forks on the byte classes)
+			for off, r := range x.S {
+				ev.tick()
+				inner := NewEnv(env)
+				vals := []Val{Int{V: uint64(off), K: KInt}, Int{V: norm(uint64(int64(r)), KInt32), K: KInt32}}
+				for k, e := range []ast.Expr{s.Key, s.Value} {
+					if e == nil {
+						continue
+					}
+					if s.Tok == token.DEFINE {
+						if id := e.(*ast.Ident); id.Name != "_" {
+							inner.Define(id.Name, vals[k])
+						}
+						continue
+					}
+					_, set := ev.lvalue(env, e)
+					set(vals[k])
+				}
+				c, r := ev.execBlock(inner, s.Body)
+				if c == ctlBreak {
+					break
+				}
+				if c == ctlReturn || c == ctlGoto {
+					return c, r
+				}
+			}
+			return ctlNone, nil
 		default:
 			ev.fail("range over %T", x)
 		}
